@@ -125,6 +125,25 @@ func (c *probeClient) EdgePoints(id, parent string, ps []data.Point) {
 	c.rec.add(c.cfg.Parent, event{Kind: "edge", Node: id, Parent: parent, Pts: conv(ps)})
 }
 
+// dupIdent: the batch already holds a point of p's identity (two points of one
+// identity and one time in one batch would leave open which of them counts).
+func dupIdent(ps data.Points, p data.Point) bool {
+	k := p.Key
+	if k == "" {
+		k = "0"
+	}
+	for _, q := range ps {
+		qk := q.Key
+		if qk == "" {
+			qk = "0"
+		}
+		if q.Type == p.Type && qk == k {
+			return true
+		}
+	}
+	return false
+}
+
 const (
 	pID      = "P"
 	sentinel = "sentinel"
@@ -151,6 +170,9 @@ func TestPropToldOfForeignChanges(t *testing.T) {
 			clock = time.Now().UnixNano() - int64(2*time.Second)
 		}
 		tick := func() time.Time { clock += 1000; return time.Unix(0, clock) }
+		// the quantifier says non-decreasing: now and then a batch carries exactly
+		// the time of the batch before it
+		sameAsBefore := func() time.Time { return time.Unix(0, clock) }
 		mk := func(id, parent, typ string) {
 			r, err := in.EdgePoints(id, parent, data.Points{{Type: data.PointTypeTombstone, Time: tick(), Origin: "setup"}, {Type: data.PointTypeNodeType, Text: typ, Origin: "setup"}})
 			if err != nil || r != "" {
@@ -259,33 +281,46 @@ func TestPropToldOfForeignChanges(t *testing.T) {
 			edgeTargets = append(edgeTargets, [2]string{pID, "grp"})
 		}
 		origins := []string{"", pID, "k1", "sib", "user-x"}
+		sameTimeUsed := false
 		nb := rapid.IntRange(10, 40).Draw(t, "nbatches")
 		var batches []batch
 		for i := 0; i < nb; i++ {
 			b := batch{origin: rapid.SampledFrom(origins).Draw(t, "origin")}
 			edge := rapid.IntRange(0, 4).Draw(t, "edgeBatch") == 0
+			tickB := tick
+			oneInstant := false
+			if i > 0 && rapid.IntRange(0, 5).Draw(t, "sameTime") == 0 {
+				tickB = sameAsBefore
+				sameTimeUsed, oneInstant = true, true
+			}
 			n := rapid.IntRange(1, 4).Draw(t, "npts")
 			if edge {
 				e := rapid.SampledFrom(edgeTargets).Draw(t, "edge")
 				b.target, b.parent = e[0], e[1]
 				for k := 0; k < n; k++ {
-					p := data.Point{Type: rapid.SampledFrom([]string{"role", "order", "other"}).Draw(t, "etype"), Time: tick(), Origin: b.origin}
+					p := data.Point{Type: rapid.SampledFrom([]string{"role", "order", "other"}).Draw(t, "etype"), Time: tickB(), Origin: b.origin}
 					p.Text = rapid.SampledFrom([]string{"admin", "user", ""}).Draw(t, "etext")
 					p.Value = float64(rapid.IntRange(0, 9).Draw(t, "evalue"))
+					if oneInstant && dupIdent(b.pts, p) {
+						continue
+					}
 					b.pts = append(b.pts, p)
 				}
 			} else {
 				b.target = rapid.SampledFrom(nodeTargets).Draw(t, "target")
 				for k := 0; k < n; k++ {
-					p := data.Point{Type: rapid.SampledFrom([]string{"description", "value", "tag", "m", "other"}).Draw(t, "ptype"), Time: tick(), Origin: b.origin}
+					p := data.Point{Type: rapid.SampledFrom([]string{"description", "value", "tag", "m", "other"}).Draw(t, "ptype"), Time: tickB(), Origin: b.origin}
 					switch p.Type {
 					case "tag":
 						p.Key = rapid.SampledFrom([]string{"0", "1", "2", "3"}).Draw(t, "tagKey")
 					case "m":
-						p.Key = rapid.SampledFrom([]string{"a", "b"}).Draw(t, "mKey")
+						p.Key = rapid.SampledFrom([]string{"a", "b", ""}).Draw(t, "mKey")
 					}
 					p.Text = rapid.SampledFrom([]string{"x", "y", "hello", ""}).Draw(t, "ptext")
 					p.Value = float64(rapid.IntRange(-5, 5).Draw(t, "pvalue"))
+					if oneInstant && dupIdent(b.pts, p) {
+						continue
+					}
 					b.pts = append(b.pts, p)
 				}
 			}
@@ -441,6 +476,9 @@ func TestPropToldOfForeignChanges(t *testing.T) {
 			cls = append(cls, o)
 		}
 		cls = append(cls, "clock:"+clockBase)
+		if sameTimeUsed {
+			cls = append(cls, "batchWithTheTimeOfTheOneBefore")
+		}
 		sort.Strings(cls)
 		if len(placements) > 1 {
 			cls = append(cls, "mirroredClientNode")
